@@ -241,4 +241,12 @@ theorem prefix_pending (f : Bytes) (hd : Delimited f) (k : Nat) (hk : k < f.leng
 example : Delimited ((Req.read 3 1 107 3).bytesTCP 0x8180) :=
   encoded_request_delimited _ _ (by decide) (by decide)
 
+/-- any two segmentations of the same byte stream (delimited requests followed by a pending rest) produce the same
+reply stream and leave the same rest in the buffer -/
+theorem any_two_segmentations_agree (h : Handler) (fs : List Bytes) (p : Bytes) (cs₁ cs₂ : List Bytes)
+    (hd : ∀ f ∈ fs, Delimited f) (hp : Pending p) (hr : ∀ f ∈ fs, (frameReply h f).isSome)
+    (h₁ : cs₁.flatten = fs.flatten ++ p) (h₂ : cs₂.flatten = fs.flatten ++ p) :
+    runReads h cs₁ [] [] = runReads h cs₂ [] [] := by
+  rw [answered_once_in_order h fs p cs₁ hd hp hr h₁, answered_once_in_order h fs p cs₂ hd hp hr h₂]
+
 end Modbus.Properties.C15
